@@ -81,7 +81,7 @@ type upd struct {
 func runC15(t *testing.T, c UpdaterCase) (*h.Violation, h.Info) {
 	var info h.Info
 	svc := fake.NewSvc()
-	svc.Set("w", 1, valueOf("w", 1))
+	svc.Set("w", 1, c15Value(1))
 	svc.Set("o", 1, valueOf("o", 1))
 	cfg := setec.StoreConfig{Client: svc, Secrets: []string{"w", "o"}, PollInterval: -1, Logf: nolog}
 	if len(c.FailWrite) > 0 {
@@ -110,7 +110,7 @@ func runC15(t *testing.T, c UpdaterCase) (*h.Violation, h.Info) {
 	}
 	fails := map[string]bool{}
 	var ups []*upd
-	installed := string(valueOf("w", 1))
+	installed := string(c15Value(1))
 	ver := uint32(1)
 	activeVer := ver
 	mk := func(step int, installDuring bool) *h.Violation {
@@ -122,7 +122,7 @@ func runC15(t *testing.T, c UpdaterCase) (*h.Violation, h.Info) {
 				installDuring = false
 				ver++
 				activeVer = ver
-				nb := string(valueOf("w", ver))
+				nb := string(c15Value(ver))
 				svc.Set("w", ver, []byte(nb))
 				if err := refresh(); err == nil {
 					installed = nb
@@ -186,7 +186,7 @@ func runC15(t *testing.T, c UpdaterCase) (*h.Violation, h.Info) {
 				ver++
 				activeVer = ver
 			}
-			b := string(valueOf("w", activeVer))
+			b := string(c15Value(activeVer))
 			if o.Fail && !o.Back {
 				fails[b] = true
 			}
@@ -223,6 +223,29 @@ func runC15(t *testing.T, c UpdaterCase) (*h.Violation, h.Info) {
 				return v, info
 			}
 			info.Class("updater-created-mid-history")
+		case "new-beside-failing-new":
+			// NewUpdater A's initial build fails - and while A is still inside that builder, updater B
+			// is created on the same secret (another goroutine in real life). B is a perfectly good
+			// updater and must follow every later install.
+			if fails[installed] {
+				continue
+			}
+			var inner *h.Violation
+			made := false
+			_, err := setec.NewUpdater(context.Background(), st, "w", func(b []byte) (*cval, error) {
+				if !made {
+					made = true
+					inner = mk(i, false)
+				}
+				return nil, errors.New("this updater's initial build fails")
+			})
+			if inner != nil {
+				return inner, info
+			}
+			if err == nil {
+				return h.V("initial-build-failure-reported", "step %d: NewUpdater succeeded although its builder rejected the current value", i), info
+			}
+			info.Class("updater-created-while-a-sibling's-initial-build-fails")
 		case "new-during-install":
 			if fails[installed] {
 				continue
@@ -308,6 +331,16 @@ func runC15(t *testing.T, c UpdaterCase) (*h.Violation, h.Info) {
 	return nil, info
 }
 
+// c15Value gives the bytes of version ver of the watched secret in the sequential campaign: version 3
+// is the EMPTY byte string - a legal value like any other (only one version, so that bytes still
+// identify versions).
+func c15Value(ver uint32) []byte {
+	if ver == 3 {
+		return []byte{}
+	}
+	return valueOf("w", ver)
+}
+
 func fromOf(c *cval) string {
 	if c == nil {
 		return "<nil>"
@@ -321,7 +354,7 @@ var c15 = &h.Campaign[UpdaterCase]{
 	Quick: 6000, Thorough: 2000000,
 	Gen: func(rt *rapid.T) UpdaterCase {
 		return UpdaterCase{Ops: rapid.SliceOfN(rapid.Custom(func(rt *rapid.T) UOp {
-			o := UOp{Kind: rapid.SampledFrom([]string{"install", "install", "install", "get", "get", "get", "new", "new-during-install", "pollnop", "other", "err"}).Draw(rt, "kind"), U: rapid.IntRange(0, 3).Draw(rt, "u")}
+			o := UOp{Kind: rapid.SampledFrom([]string{"install", "install", "install", "get", "get", "get", "new", "new-during-install", "new-beside-failing-new", "pollnop", "other", "err"}).Draw(rt, "kind"), U: rapid.IntRange(0, 3).Draw(rt, "u")}
 			if o.Kind == "install" {
 				o.Fail = rapid.IntRange(0, 3).Draw(rt, "fail") == 0
 				o.Back = rapid.IntRange(0, 4).Draw(rt, "back") == 0
